@@ -51,5 +51,35 @@ func c05Main(e *Env) (*res.Result, error) {
 		n = 480
 	}
 	specs := routerSpecs(e, "C05", n, true)
+	// parameter-family specs with path variables: multi-byte constant segments, layouts,
+	// a path variable declared on the path item and re-declared (other type) by an operation
+	disabled := disabledTags()
+	forms := specgen.BaseForms()
+	specs = append(specs, collect(e, "C05p", n/3, func(t *rapid.T) PkgSpec {
+		c := specgen.NewCtx(t, disabled)
+		bf := rapid.SampledFrom(forms).Draw(t, "baseform")
+		d := c.ParamsDoc(true)
+		d.Servers = bf.Servers
+		// C05 supplies path segments only: every query / header parameter is optional here
+		optional := func(ps []*specgen.Parameter) {
+			for _, p := range ps {
+				if p.Ref == "" && p.In != "path" {
+					p.Required = false
+				}
+			}
+		}
+		for _, pi := range d.Paths {
+			optional(pi.Parameters)
+			for _, mo := range pi.Ops() {
+				optional(mo.Op.Parameters)
+			}
+		}
+		if d.Components != nil {
+			for _, p := range d.Components.Parameters {
+				optional([]*specgen.Parameter{p})
+			}
+		}
+		return PkgSpec{Doc: d, Cfg: inproc.Config{DoNotEdit: true, BasePath: bf.Flag}, Meta: map[string]any{"baseform": bf.Name, "tags": tagList(c.Tags)}}
+	})...)
 	return compiledMain(e, "C05", specs, false, 20*time.Minute)
 }
